@@ -183,7 +183,7 @@ def run():
               "operations adding 0/1/2 steps, failing operations cutting the history) with <= 4 operations, <= 2 nested groups, <= 8 undo/redo calls and checks, in every "
               "reachable state, refinement of a timeline-with-cursor description of linear undo, UnwindRestores (undoing all steps gives the initial document, redoing them the "
               "current one), RewindRestores, EditClearsRedo, GroupIsOneStep. R2: TLC exports every history shape over E/U/R/B/X/Y within the generator bounds; the driver "
-              "instantiates E from a table of 66 public EditState operations (213 parameter vectors) (in-range and boundary parameters) on 8 seed documents (1..3 layers; alpha, offset, hidden, locked, "
+              "instantiates E from a table of 66 public EditState operations (234 parameter vectors; every current-layer operation also with the layer left where the previous operations put it) (in-range and boundary parameters) on 8 seed documents (1..3 layers; alpha, offset, hidden, locked, "
               "alpha-locked, position-locked layers; ragged rows; cells stored beyond the layer size; all font modes; SAUCE; 18-colour palette), plus every table entry alone, "
               "pairs and triples (exhaustive in the thorough tier) followed by a full unwind/rewind, plus seeded random histories of up to 40 steps. R3: after EVERY engine call "
               "the driver records result, undo_stack_len, can_redo and a digest of an observational snapshot of the whole document; Trace_Undo rebuilds the model's stacks from the "
